@@ -1,6 +1,7 @@
 package main
 
 import (
+	"regexp"
 	"fmt"
 	"go/ast"
 	"go/token"
@@ -38,9 +39,18 @@ func c07Table() []GuardReq {
 	fceSP := v1Elem("fileContractElement", "StorageProofs") + "#0.FileContract"
 	wid := "call (consensus.MidState).storageProofWindowID(%MS%, {consensus.V1TransactionSupplement}, %T1%.StorageProofs[*].ParentID)#0"
 	li := "call (consensus.State).StorageProofLeafIndex(%ST%, " + fceSP + ".Filesize, " + wid + ", %T1%.StorageProofs[*].ParentID)"
-	r := req("v1-proof-root", VT, "call closure %ID%$%ID%("+li+", "+fceSP+".Filesize, call closure %ID%$%ID%("+li+", "+fceSP+".Filesize, %T1%.StorageProofs[*].Leaf), %T1%.StorageProofs[*].Proof)", opNE, fceSP+".FileMerkleRoot",
+	r := req("v1-proof-root", VT, "…", opNE, fceSP+".FileMerkleRoot",
 		"a v1 storage proof must prove the leaf chosen by the chain-derived challenge (window ID, contract ID, committed size) under the root committed in the contract",
-		"call closure %ID%$%ID%(…) != nil") // an empty file has no leaf to prove (post storage-proof hardfork)
+		"call closure %ID%$%ID%(…) != nil", "call consensus.%ID%(…%T1%.StorageProofs[*].Leaf…) != nil") // an empty file has no leaf to prove (post storage-proof hardfork)
+	// root(leafIndex, filesize, leafHash(leafIndex, filesize, Leaf), Proof): closures or named helpers, any
+	// argument order, the state as an optional extra argument
+	stOpt := []*regexp.Regexp{regexp.MustCompile(pat("%ST%"))}
+	r.LFn = func(a string) bool {
+		leafHash := func(b string) bool {
+			return callArgSet(b, []func(string) bool{reMatcher(li), reMatcher(fceSP + ".Filesize"), reMatcher("%T1%.StorageProofs[*].Leaf")}, stOpt)
+		}
+		return callArgSet(a, []func(string) bool{reMatcher(li), reMatcher(fceSP + ".Filesize"), leafHash, reMatcher("%T1%.StorageProofs[*].Proof")}, stOpt)
+	}
 	add(r)
 	res := "%T2%.FileContractResolutions[*]"
 	sp := res + ".Resolution.(types.V2StorageProof)"
@@ -374,7 +384,7 @@ func sumTypeSwitchesOn(c *Ctx, rule string, target types.Type, ifaceName string,
 					cl := cc.(*ast.CaseClause)
 					if cl.List == nil {
 						hasDefault = true
-						defaultRejects = clauseRejects(cl)
+						defaultRejects = clauseRejects(cl, pk.TypesInfo, subj)
 					}
 					for _, e := range cl.List {
 						if t := pk.TypesInfo.TypeOf(e); t != nil {
@@ -399,7 +409,7 @@ func sumTypeSwitchesOn(c *Ctx, rule string, target types.Type, ifaceName string,
 					return true
 				}
 				ok = len(missing) == 0 || (hasDefault && defaultRejects)
-				c.Check(ok, rule, inst, p.Pos(ts.Pos()), ifElse(ok, fmt.Sprintf("handles all %d kinds (or rejects the rest)", len(impls)), fmt.Sprintf("type switch over %s does not handle %v and has no rejecting default: that kind is silently ignored here", ifaceName, missing)))
+				c.Check(ok, rule, inst, p.Pos(ts.Pos()), ifElse(ok, fmt.Sprintf("handles all %d kinds (or rejects the rest)", len(impls)), fmt.Sprintf("type switch over %s does not handle %v and its default (if any) neither rejects nor looks at the value: that kind is silently mishandled here", ifaceName, missing)))
 				return true
 			})
 		}
@@ -414,23 +424,63 @@ var partialSwitchOK = map[string]string{
 	"types.V2TransactionSemantics.EncodeTo": "normalisation step only (strips signatures / the history proof from the kinds that carry them); every kind is then encoded by the resolution's own EncodeTo",
 }
 
-func clauseRejects(cl *ast.CaseClause) bool {
-	rej := false
+// clauseRejects: the default clause deals with the kinds it receives: it rejects them (panic, recorded or
+// returned error) or it processes the switched value itself (it mentions the switch subject or the variable
+// bound to it). A default that merely leaves, or that lumps all remaining kinds into one constant outcome
+// without looking at the value, silently mishandles a kind that has no case of its own.
+func clauseRejects(cl *ast.CaseClause, info *types.Info, subj ast.Expr) bool {
+	var root types.Object
+	for e := stripParens(subj); e != nil; {
+		switch x := e.(type) {
+		case *ast.Ident:
+			root = info.Uses[x]
+			e = nil
+		case *ast.SelectorExpr:
+			e = stripParens(x.X)
+		case *ast.IndexExpr:
+			e = stripParens(x.X)
+		case *ast.StarExpr:
+			e = stripParens(x.X)
+		case *ast.CallExpr:
+			if len(x.Args) > 0 {
+				e = stripParens(x.Args[0])
+			} else {
+				e = nil
+			}
+		default:
+			e = nil
+		}
+	}
+	bound := info.Implicits[cl]
+	handles := false
 	for _, s := range cl.Body {
 		ast.Inspect(s, func(n ast.Node) bool {
 			switch x := n.(type) {
 			case *ast.CallExpr:
 				if id, ok := x.Fun.(*ast.Ident); ok && id.Name == "panic" {
-					rej = true
+					handles = true
 				}
 				if sel, ok := x.Fun.(*ast.SelectorExpr); ok && (sel.Sel.Name == "SetErr" || sel.Sel.Name == "Errorf" || sel.Sel.Name == "New") {
-					rej = true
+					handles = true
+				}
+			case *ast.ReturnStmt:
+				if len(x.Results) > 0 {
+					last := stripParens(x.Results[len(x.Results)-1])
+					if t := info.TypeOf(last); t != nil && isErrorType(t) {
+						if id, ok := last.(*ast.Ident); !ok || id.Name != "nil" {
+							handles = true // a sentinel, a constructed or a propagated error
+						}
+					}
+				}
+			case *ast.Ident:
+				if o := info.Uses[x]; o != nil && (o == root || o == bound) {
+					handles = true
 				}
 			}
 			return true
 		})
 	}
-	return rej
+	return handles
 }
 
 func c07Exhaustive(c *Ctx) {
